@@ -6,19 +6,26 @@ open Ramses Ramses.Eng
 /-- state text: notPaused|handler|disableSending|disableDiscovery|reading|writePaused -/
 def parseEng (s : String) : Option Eng :=
   match (s.splitOn "|").map parseBool with
-  | [some np, some h, some ds, some dd, some rd, some wp] =>
-    some ⟨if np then none else some ⟨true, false, false⟩, h, ds, dd, rd, wp⟩
+  | [some np, some h, some ds, some dd, some rd, some wp, some lk] =>
+    some ⟨if np then none else some ⟨true, false, false⟩, h, ds, dd, rd, wp, lk⟩
   | _ => none
 
 def showEng (e : Eng) : String :=
-  "|".intercalate ([e.saved.isNone, e.handler, e.disableSending, e.disableDiscovery, e.reading, e.writePaused].map showBool)
+  "|".intercalate ([e.saved.isNone, e.handler, e.disableSending, e.disableDiscovery, e.reading, e.writePaused, e.locked].map showBool)
 
 def opsEng (op : String) (a : List String) : Option String :=
   match op, a with
   | "eng.run", [st, ops] =>
     (parseEng st).map fun e =>
-      let bs := (if ops = "" then [] else ops.splitOn ",").map fun o => o.endsWith ":raise"
-      "ok\t" ++ showEng (runOps e bs)
+      -- "snap:ok" / "restore:raise" ...: one guarded operation; "nested:<k>:<ok|raise>": a restore during which k
+      -- snapshot attempts are made
+      let (e', outs) := (if ops = "" then [] else ops.splitOn ",").foldl (fun (acc : Eng × List String) o =>
+        match o.splitOn ":" with
+        | ["nested", k, r] =>
+          let (x, res, rs) := guardedWithNested (r = "raise") (List.replicate (k.toNat?.getD 0) false) acc.1
+          (x, acc.2 ++ [s!"{repr res}/{rs.length}/{(rs.filter (· = Res.runtimeError)).length}"])
+        | _ => ((guarded (o.endsWith ":raise") acc.1).1, acc.2)) (e, [])
+      "ok\t" ++ showEng e' ++ (if outs.isEmpty then "" else "\t" ++ ";".intercalate outs)
   | _, _ => none
 
 end Driver
